@@ -11,6 +11,7 @@ const KSI_Rule *g_last_rules;     /* rule list of the policy evaluated last */
 _Bool g_fb_env_failed;
 char g_tmp_hash_obj[8], g_tmp_cal_obj[8], g_tmp_pub_obj[8];
 unsigned g_tmp_frees;
+_Bool g_rv_left_cal, g_rv_left_pub, g_rv_left_hash;   /* (audit builderY) arbitrary per call of the replaced Rule_verify: which scratch objects the policy leaves in tempData */
 KSI_DataHash *g_tmp_hash_p; KSI_CalendarHashChain *g_tmp_cal_p; KSI_PublicationsFile *g_tmp_pub_p;   /* typed aliases, set by the harness */
 
 /* ASSUMED stubs */
